@@ -209,8 +209,23 @@ var (
 	execC02 = corrExec(oracleC02, ntC02)
 	execC04 = corrExec(oracleC04, ntC04)
 	execC09 = corrExec(oracleFull, ntC09)
-	execC16 = corrExec(oracleFull, ntC16)
 )
+
+func execC16(h history) Outcome {
+	ctA := runHistoryAPI(h, nil)
+	if ctA.Model.ambiguous {
+		return Outcome{Skip: "ambiguous_login_match"}
+	}
+	ctB := runHistoryAPIOpt(h, nil, true)
+	if err := traceErrors(ctA); err != nil {
+		return Outcome{Err: err}
+	}
+	if err := oracleC16(ctA, ctB); err != nil {
+		return Outcome{Err: err}
+	}
+	f := factsOf(ctA)
+	return Outcome{NT: ntC16(f), Labels: labelsOf(f)}
+}
 
 func genHistC01(rt *rapid.T) history {
 	return genHistory(rt, hgenOpts{MaxLen: 60, MaxSessions: 8, Orphans: true, Cleanup: "far", Strays: true})
